@@ -347,15 +347,19 @@ def run(ctx):
         keep = sorted(rng.sample(range(len(cases)), cap))
         cases = [cases[i] for i in keep]
         cmeta = [cmeta[i] for i in keep]
-    if not quick:
-        # double crashes: a second crash in the first step after the restart
-        extra = []
-        for c in rng.sample(cases, min(400, len(cases))):
-            c2 = dict(c)
-            c2["second"] = (0, rng.randint(0, 60), rng.random() < 0.5)
-            extra.append(c2)
-        cases += extra
-        cmeta += [None] * len(extra)
+    # double crashes: a second crash in one of the first steps after the restart (several workers: the
+    # completion order after the restart is varied so that re-issued jobs are still in flight then)
+    extra = []
+    multi = [c for c in cases if c["setup"]["workers"] > 1]
+    pool = (multi * 3 + cases) if multi else cases
+    for c in rng.sample(pool, min(60 if quick else 600, len(pool))):
+        c2 = dict(c)
+        W = c["setup"]["workers"]
+        c2["schedule"] = [rng.randrange(W) for _ in range(12)]
+        c2["second"] = (rng.randint(0, 1), rng.randint(0, 80), rng.random() < 0.5)
+        extra.append(c2)
+    cases += extra
+    cmeta += [None] * len(extra)
     res = H.run_many(CC.crash_case, cases, jobs=14, timeout=900)
     for c in cases[:3]:
         ctx.sample({k: v for k, v in c.items()})
